@@ -29,8 +29,8 @@ def targets():
         out.append((os.path.basename(p)[:-5], p, prop or []))
     for d in sorted(glob.glob(os.path.join(ROOT, "seeded", "*", "patch.diff"))):
         meta = json.load(open(os.path.join(os.path.dirname(d), "meta.json")))
-        if meta.get("obsolete"):
-            continue  # neutralised by a later repair of /repo (reason in meta.json)
+        if meta.get("obsolete") or meta.get("outside_properties"):
+            continue  # neutralised by a later repair of /repo, or not a violation of any listed property (reason in meta.json)
         props = meta["property"] if isinstance(meta["property"], list) else [meta["property"]]
         props = props + [p for p in meta.get("also_check", []) if p not in props]
         out.append(("seeded/" + os.path.basename(os.path.dirname(d)), d, props))
